@@ -7,6 +7,7 @@ HARNESS = "rx_driver"
 LEAN_MODULES = ["ViaProofs.C18"]
 REQUIRED_THEOREMS = ['Via.C18_seq', 'Via.erase_absent_noop', 'Via.C18_erase_compares_key_under_lock', 'Via.C18_lock_discipline', 'Via.C18_commute_distinct_buckets']
 LEVEL = "proof"
+LEVEL_TEXT = ('PROOF of sequential refinement to an ordinary map for every bucket count, hash function and history, of erase-absent-is-noop, and that single-bucket operations on different buckets commute (state and results); the lock discipline is an extracted structural fact; the reduction from lock-respecting interleavings to a sequential order is NOT formalised and is searched for counter-examples by a threaded Wing-Gong linearizability check and TSan.')
 RULE = ("all operation histories up to a length bound over keys {1,2,3,22} x bucket configurations "
         "(1 bucket = maximal collision, 3 buckets, default 19) plus random histories up to 200 operations; "
         "each history ends by reading back every key, empty() and data(); non-trivial = contains an erase or an "
